@@ -1081,6 +1081,6 @@ pub fn run(tier: &str) -> i32 {
     rep.samples.push(cases[cases.len() / 2].clone());
     rep.samples.push(cases[cases.len() - 1].clone());
     rep.rule = "states = inputs: adversarial classes enumerated completely over small alphabets (filter placement x value shapes, every built-in x argument position x argument kind, literal variables x operators, key interpolation, look-around / back-reference / catastrophic regexes, odd indices, malformed data with a multi-byte character at every offset 88..111, console reporters on CloudFormation / Terraform shaped data in every summary mode and via stdin, test files, payloads, invalid UTF-8, rule / variable reference cycles, deep nesting) and all single character edits (24-character alphabet incl. NUL and 2-, 3-, 4-byte characters) plus token deletions / duplications / swaps of a seed corpus of rules, data, test, payload and parameter files; every case runs in an isolated worker process with a 20 s deadline".into();
-    rep.assumptions = vec!["in-process execution through the library and CfnGuard::execute inside worker processes; rulegen and the real binary's exit mapping are exercised by C19 and C06".into(), "inputs more than one edit away from the seed corpus and the enumerated classes are not covered".into()];
+    rep.assumptions = vec!["in-process execution through the library and CfnGuard::execute inside worker processes, except the class real-stdout-long-lines (the real binary as a child process); rulegen and the real binary's exit mapping are otherwise exercised by C19 and C06".into(), "inputs more than one edit away from the seed corpus and the enumerated classes are not covered".into()];
     rep.finish()
 }
